@@ -15,7 +15,8 @@ RULE = ("E1, ranges complete: ('range', field, lo, hi, tuple, name) = EVERY valu
         "single-character deletion and substitution (alphabet '0 9 - space ( ) v x') of 6 canonical texts; ('short', s) all strings of length <= 4 "
         "over that alphabet; ('settings', which, subset, widths, name) all 2^7 subsets of naming values 01..07 x byte widths x names for project "
         "and device settings. Distinct = case tuples; non-trivial = all; identifiers printed/parsed are counted in 'measured'."
-        ' Settings value classes: all numeric values zero, largest values, two-byte version, version zero.')
+        ' Settings value classes: all numeric values zero, largest values, two-byte version, version zero.'
+        ' Names that only BEGIN like a numeric identifier (no blank after the version field) are part of the name alphabet; the recorded ambiguity finding is restricted to texts that are, as a whole, well-formed numeric identifier texts.')
 ASSUMPTIONS = [
     "a text must raise ConfigIdFormatError only if no prefix of it can be read as an identifier (the statement does not demand rejection of trailing garbage)",
     "unknown project/device (9999) print as 9999, like the code does for the project",
